@@ -375,6 +375,25 @@ func genTC(r *u.Rng, levels []string, force bool) *TC {
 	return t
 }
 
+// zeroSomeRequests turns the pods of one pod set (or, without sub-groups, of the
+// whole job) into best-effort pods: no cpu, memory or GPU request (an MPI launcher
+// or another helper pod). Such pods fit every domain whatever its free resources.
+func zeroSomeRequests(r *u.Rng, j *Job) bool {
+	if !r.Chance(1, 4) {
+		return false
+	}
+	target := ""
+	if len(j.SubGroups) > 0 {
+		target = u.Pick(r, j.Pods).SubGroup
+	}
+	for i := range j.Pods {
+		if j.Pods[i].SubGroup == target && j.Pods[i].Status == pod_status.Pending {
+			j.Pods[i].Cpu, j.Pods[i].Mem, j.Pods[i].Gpus = 0, 0, 0
+		}
+	}
+	return true
+}
+
 // genShape gives a job its sub-group structure and assigns its pods to pod sets.
 func genShape(r *u.Rng, j *Job, levels []string, force bool) {
 	j.TC = genTC(r, levels, force)
@@ -513,6 +532,7 @@ func genTopoCluster(r *u.Rng, dotted bool) Cluster {
 	if r.Chance(1, 2) {
 		placeRunning(r, &c, rooms, &j, r.Range(1, len(j.Pods)), levels, r.Chance(1, 8))
 	}
+	zeroSomeRequests(r, &j)
 	c.Jobs = append(c.Jobs, j)
 	return c
 }
@@ -606,6 +626,9 @@ func genCycle(r *u.Rng, dotted bool) Cluster {
 			placeRunning(r, &c, rooms, &j, np, levels, false)
 		default: // partly running
 			placeRunning(r, &c, rooms, &j, int(j.MinMember), levels, false)
+		}
+		if len(j.SubGroups) > 0 {
+			zeroSomeRequests(r, &j)
 		}
 		c.Jobs = append(c.Jobs, j)
 	}
